@@ -141,6 +141,11 @@ pub struct Cfg {
     /// to the world root) while `-o <out>` on the command line overrides it
     #[serde(default)]
     pub file_out: Option<String>,
+    /// Tauri's platform-specific configuration files (tauri.linux.conf.json, tauri.macos.conf.json,
+    /// tauri.windows.conf.json) lie next to tauri.conf.json; they carry no typegen section and
+    /// are none of the tool's business
+    #[serde(default)]
+    pub platform_confs: bool,
 }
 
 impl Cfg {
@@ -156,6 +161,7 @@ impl Cfg {
             file_mode: None,
             flag_visualize: false,
             file_out: None,
+            platform_confs: false,
         }
     }
     fn mode_in_file(&self) -> String {
@@ -465,6 +471,14 @@ impl World {
             ConfSrc::Flags => {}
         }
         fs::write(&tconf, serde_json::to_string_pretty(&doc).unwrap()).unwrap();
+        for os in ["linux", "macos", "windows"] {
+            let p = self.src_tauri().join(format!("tauri.{}.conf.json", os));
+            if c.platform_confs {
+                let _ = fs::write(&p, format!("{{\n  \"productName\": \"sim-app-{}\",\n  \"bundle\": {{ \"active\": true }}\n}}\n", os));
+            } else {
+                let _ = fs::remove_file(&p);
+            }
+        }
     }
 
     /// The command line (CLI entry) for a generate run.
